@@ -1,5 +1,5 @@
 import QuriVerif.Props.ReflectLift
-import QuriVerif.Proof.PauliSound
+import QuriVerif.Proof.SupSound
 /-
   C16 over complex operators, for ALL register sizes: the Pauli bookkeeping of
   `ComputationalBasisState` (`_add_single_pauli`, `_add_pauli`, `with_gates_applied` on Pauli-kind gates;
@@ -138,5 +138,70 @@ example (φ : ℕ → ℝ) (r : ℕ) (hr : r < 2 ^ 5) :
     opC φ (chain.map RGate.toGate) r 0b10101 = if r = 0b10010 then Complex.I ^ (3 : ℤ) else 0 :=
   pauli_track_gates_complex φ ⟨5, 0b10101, 7⟩ ⟨5, 0b10010, 10⟩ chain chain_track (by decide)
     (by decide +kernel) r hr
+
+/-! ### `comp_basis_superposition` (`Proof/SupSound`): the prepared state, every register size -/
+
+/-- in ℂ with `θ = φ 0`, `φ = φ 1` the ring constants are `2cos θ`, `2 sin θ`, `e^{iφ}`, `i^k` -/
+theorem twoCos_complex (φ : ℕ → ℝ) : twoCosK (rhoC φ) = 2 * Complex.cos (φ 0) := by
+  unfold twoCosK
+  have h2 : rhoC φ 0 ^ (2 : ℤ) = Complex.exp ((φ 0 : ℂ) * Complex.I) := by
+    rw [zpow_ofNat, rhoC_sq, mul_comm]
+  have hm : rhoC φ 0 ^ (-2 : ℤ) = Complex.exp (-(φ 0 : ℂ) * Complex.I) := by
+    rw [zpow_neg, h2, ← Complex.exp_neg]; congr 1; ring
+  rw [h2, hm, Complex.two_cos]
+
+theorem twoSin_complex (φ : ℕ → ℝ) : twoSinK zetaC (rhoC φ) = 2 * Complex.sin (φ 0) := by
+  unfold twoSinK
+  have h2 : rhoC φ 0 ^ (2 : ℤ) = Complex.exp ((φ 0 : ℂ) * Complex.I) := by
+    rw [zpow_ofNat, rhoC_sq, mul_comm]
+  have hm : rhoC φ 0 ^ (-2 : ℤ) = Complex.exp (-(φ 0 : ℂ) * Complex.I) := by
+    rw [zpow_neg, h2, ← Complex.exp_neg]; congr 1; ring
+  rw [h2, hm, zetaC_pow_four, Complex.two_sin]
+  ring
+
+theorem ePhi_complex (φ : ℕ → ℝ) : ePhiK (rhoC φ) = Complex.exp (Complex.I * (φ 1 : ℂ)) := by
+  unfold ePhiK; rw [zpow_ofNat, rhoC_sq]
+
+theorem iPow_complex (k : ℤ) : iPowK zetaC k = Complex.I ^ k := amp_is_i_pow k
+
+/-- **(5) the superposition builder.**  For all `n`, all `a ≠ b` below `2^n` with phase counters
+    `pa`, `pb`, and all real θ = `φ 0`, φ = `φ 1`: whenever `comp_basis_superposition` returns a circuit,
+    the vector it prepares from `|0…0⟩` – column `0` of the operator of the emitted gates – is ONE
+    non-zero complex factor times
+        `2cos θ · i^pa · |a⟩ + e^{iφ} · 2 sin θ · i^pb · |b⟩`
+    (the common factor 2 is the integer scaling of the `PauliRotation` matrix, scale exponent 2).  The
+    factor `c` is the value of `globalPhase` of `Props/C16` (`eval_globalPhase`). -/
+theorem superposition_complex (φ : ℕ → ℝ) (sa sb : CB) (gs : List RGate) (hn : sa.n = sb.n)
+    (hwa : sa.wf) (hwb : sb.wf) (hne : sa.bits ≠ sb.bits) (h : supCircuit sa sb = .ok gs) :
+    ∃ c : ℂ, c ≠ 0 ∧ ∀ r, r < 2 ^ sa.n → opC φ (gs.map RGate.toGate) r 0
+      = c * (if r = sa.bits then 2 * Complex.cos (φ 0) * Complex.I ^ sa.phase
+             else if r = sb.bits then
+               Complex.exp (Complex.I * (φ 1 : ℂ)) * (2 * Complex.sin (φ 0)) * Complex.I ^ sb.phase
+             else 0) := by
+  refine ⟨supPhase zetaC (rhoC φ) sa.phase sb.phase,
+    supPhase_ne_zero zetaC_pow_eight (rhoC_ne_zero φ) _ _, fun r hr => ?_⟩
+  rw [← twoCos_complex, ← twoSin_complex, ← ePhi_complex, ← iPow_complex, ← iPow_complex]
+  exact supCircuit_col zetaC_pow_eight (rhoC_ne_zero φ) sa sb gs hn hwa hwb hne h r hr
+
+/-- `a = b`: the model returns the circuit of `|a⟩` (θ, φ are ignored); the prepared vector is `|a⟩` -/
+theorem superposition_same_complex (φ : ℕ → ℝ) (sa sb : CB) (gs : List RGate) (hn : sa.n = sb.n)
+    (hwa : sa.wf) (he : sa.bits = sb.bits) (h : supCircuit sa sb = .ok gs) :
+    ∀ r, r < 2 ^ sa.n → opC φ (gs.map RGate.toGate) r 0 = if r = sa.bits then 1 else 0 :=
+  fun r hr => supCircuit_col_same sa sb gs hn hwa he h r hr
+
+/-- the emitted circuit for `|101⟩·i` and `|011⟩·i²` on 3 qubits … -/
+private theorem sup_ex : supCircuit ⟨3, 0b101, 1⟩ ⟨3, 0b011, 2⟩ = .ok
+    [{ kind := .X, targets := [0] }, { kind := .X, targets := [2] },
+     rotGate [1, 2], rzGate 1 1 1 2] := by decide +kernel
+
+/-- … prepares `c·(2cos θ·i·|101⟩ + e^{iφ}·2 sin θ·i²·|011⟩)`, `c ≠ 0`, for all real θ, φ -/
+example (φ : ℕ → ℝ) : ∃ c : ℂ, c ≠ 0 ∧ ∀ r, r < 2 ^ 3 →
+    opC φ ([{ kind := .X, targets := [0] }, { kind := .X, targets := [2] },
+      rotGate [1, 2], rzGate 1 1 1 2].map RGate.toGate) r 0
+      = c * (if r = 0b101 then 2 * Complex.cos (φ 0) * Complex.I ^ (1 : ℤ)
+             else if r = 0b011 then
+               Complex.exp (Complex.I * (φ 1 : ℂ)) * (2 * Complex.sin (φ 0)) * Complex.I ^ (2 : ℤ)
+             else 0) :=
+  superposition_complex φ ⟨3, 0b101, 1⟩ ⟨3, 0b011, 2⟩ _ rfl (by decide) (by decide) (by decide) sup_ex
 
 end QV.Props.C16Lift
